@@ -89,7 +89,7 @@ type Property interface {
 
 var registry = map[string]Property{}
 
-func Register(p Property) { registry[p.ID()] = p }
+func Register(p Property)    { registry[p.ID()] = p }
 func Get(id string) Property { return registry[id] }
 func IDs() []string {
 	var ids []string
